@@ -55,7 +55,22 @@ func init() {
 		v := BuildNode(in)
 		switch tv := v.(type) {
 		case stackage.Stack:
-			return Tokenize(tv.String())
+			first := tv.String()
+			// the rendering is a function of the CURRENT configuration, not of what was rendered before: flip case folding
+			// after the first rendering and compare with an independently built twin that had it flipped from the start
+			twinIn := toGeneric(in).(map[string]any)
+			twinIn["fold"] = !nBool(in, "fold")
+			if twin, ok := BuildNode(twinIn).(stackage.Stack); ok {
+				tv.SetFold()
+				if second, want := tv.String(), twin.String(); second != want {
+					return Tokenize("HISTORY-DEPENDENT rendering after toggling fold: " + second + " / fresh: " + want)
+				}
+				tv.SetFold()
+				if third := tv.String(); third != first {
+					return Tokenize("HISTORY-DEPENDENT rendering after toggling fold twice: " + third + " / first: " + first)
+				}
+			}
+			return Tokenize(first)
 		case stackage.Condition:
 			return Tokenize(tv.String())
 		}
@@ -272,6 +287,7 @@ type treeGen struct {
 	forms      bool
 	nils       bool
 	validConds bool // only Conditions that pass Valid()
+	f32        bool // float32 leaves among the values (rendering only)
 }
 
 var leafAlphabet = []string{"a", "b", "c", "x", "y", "z", "0", "7", "SP", "SP", "TAB", "U2", "U3", "U4", ",", ";", "=", "&", "(", ")", "-", "_", "A", "N", "D"}
@@ -341,6 +357,10 @@ func (g *treeGen) leaf() Node {
 		return Node{"t": "leaf", "ty": "bool", "v": toksAny(Tokenize("false"))}
 	case 2:
 		return Node{"t": "leaf", "ty": "str", "v": []any{}}
+	case 3:
+		if g.f32 && g.rng.Intn(3) == 0 {
+			return Node{"t": "leaf", "ty": "f32", "v": toksAny(Tokenize([]string{"0.1", "1.1", "2.5", "3.3"}[g.rng.Intn(4)]))}
+		}
 	}
 	v := g.toks(1, 6, leafAlphabet)
 	// Unicode white space that is NOT a blank of the grammar, strictly inside the text (its edges are trimmed by the package)
@@ -487,6 +507,7 @@ func cmdTreeGen(args []string) {
 
 var treeGenerators = map[string]func(g *treeGen) (Node, any){
 	"render": func(g *treeGen) (Node, any) {
+		g.f32 = true // float32 leaves: only the rendering is specified for them
 		s := g.stack(0)
 		for s["k"] == "BASIC" && g.rng.Intn(4) != 0 {
 			s = g.stack(0)
